@@ -145,6 +145,12 @@ func c03ABI(c *core.Ctx, tablesOnly bool) {
 	}
 	N, P, B := sh[0], sh[1], sh[2]
 	T := []int{1, 3, 12, 30, 0, 1, 2, 12}[c.R.Intn(8)] // also the empty series: the library still initialises / returns the states
+	if !tablesOnly && c.R.Bool(0.12) {
+		// a catchment-sized batch with its own parameter set per cell and short series: thousands of cell goroutines are
+		// inside the (C-backed) parameter views at the same moment
+		N = []int{1000, 2000, 3000}[c.R.Intn(3)]
+		P, B, T = N, []int{1, 3, N}[c.R.Intn(3)], 3
+	}
 	wc := 0
 	if needsWidthClass(model) {
 		wc = widthClassFor(c.R, N)
@@ -172,6 +178,9 @@ func c03ABI(c *core.Ctx, tablesOnly bool) {
 	}
 	if T == 0 {
 		c.Tag("abi:empty-series")
+	}
+	if N >= 1000 {
+		c.Tag("abi:catchment-sized-batch")
 	}
 	// Go API reference
 	p, err := Prepare(run)
